@@ -42,7 +42,7 @@ def _choice_specs(tid):
     return [by_name[k] for k in order]
 
 
-def _check(k, tid, outputs=False, fs=None, identity=True):
+def _check(k, tid, outputs=False, fs=None, identity=True, picks=None):
     specs = _choice_specs(tid)
     sel_names = []
     for ci, c in enumerate(k.unique_choices):
@@ -72,6 +72,11 @@ def _check(k, tid, outputs=False, fs=None, identity=True):
             continue
         # who must it be
         pick = c._user_selection
+        if picks is not None and c in picks:
+            # the pick the history prescribes (a replacing load forgets earlier picks); it must also be what the
+            # instance recorded
+            if (picks[c] is None) != (pick is None) or (pick is not None and pick.name != picks[c]):
+                return False
         if pick is not None and pick.visibility:
             want = pick
         else:
@@ -149,10 +154,31 @@ def load(ctx, *args):
     fs = MemFS()
     install_fs(fs, K)
     fs.put("/m/in", "\n".join(lines) + "\n")
-    k.load_config("/m/in", replace=bool(rest[2 * ctx["nlines"]]))
+    rep = bool(rest[2 * ctx["nlines"]])
+    # expected user picks after the load: the last member assigned y without default marker; a replacing load
+    # forgets every earlier pick, a merge keeps the picks of choices the file does not select in
+    last_y = None
+    marked = False
+    for j in range(ctx["nlines"]):
+        if rest[2 * j + 1] == 1:
+            last_y = members[rest[2 * j] % len(members)]
+        if rest[2 * j + 1] >= 3:
+            marked = True
+    picks = {}
+    for c in k.unique_choices:
+        mine = [m.name for m in c.syms] == list(members)
+        if mine and last_y is not None:
+            # (a default-marked entry for a choice that has a pick turns the current selection into the pick, by
+            #  design -- Choice.resolve_defaults; then the remembered member is not prescribed)
+            if not marked:
+                picks[c] = last_y
+        elif rep:
+            picks[c] = None
+        # (merges without a y line: the earlier pick, or the current selection when a default-marked entry is merged)
+    k.load_config("/m/in", replace=rep)
     # with policy `sdkconfig` a default-marked entry may legitimately pin another default selection (C08): there only
     # "exactly one member is y and it is the reported selection" is demanded
-    return _check(k, tid, identity=(ctx["policy"] == "kconfig"))
+    return _check(k, tid, identity=(ctx["policy"] == "kconfig"), picks=picks if ctx["policy"] == "kconfig" else None)
 
 
 def jobs(tier, seed, excluded=()):
